@@ -40,7 +40,8 @@ ENUM_EXHAUSTIVE = {'quick': 'breadth-first over contract states: every op of the
                    'thorough': 'breadth-first over contract states: every op from every state reachable within 6 ops (sequences up to '
                                'length 7), 8 configurations; single+double fault injection from states within 3 ops'}
 
-ACQ_VARIANTS = [(True, None), (False, None), (True, 0.1), (True, 0), (True, -1), (False, 0.1)]
+ACQ_VARIANTS = [(True, None), (False, None), (True, 0.1), (True, 0), (True, -1), (False, 0.1),
+                (False, -1), (False, -1.0)]        # non-blocking with the "no timeout" value spelled out
 
 
 def alphabet():
